@@ -274,7 +274,7 @@ pub fn run(ctx: &Ctx) -> PropResult {
             other => rec.violation("C03|anchor|from_timestamp(0)|not-1970-01-01T00:00:00".to_string(), || json!({"observed": format!("{:?}", other)})),
         }
     }));
-    wls.push(Workload::cases("ts_random", ctx.n(400_000, 20_000_000), |rec, _, rng| {
+    wls.push(Workload::cases("ts_random", ctx.count(400_000, 20_000_000), |rec, _, rng| {
         let ts = match rng.below(8) {
             0 => rng.next() as i64,
             1 => rng.range_i64(MIN_TS - 1_000_000, MIN_TS + 1_000_000),
@@ -286,11 +286,11 @@ pub fn run(ctx: &Ctx) -> PropResult {
         };
         judge_ts(rec, ts);
     }));
-    wls.push(Workload::cases("datetime_pairs", ctx.n(300_000, 10_000_000), |rec, _, rng| {
+    wls.push(Workload::cases("datetime_pairs", ctx.count(300_000, 10_000_000), |rec, _, rng| {
         let p = gen_pair(rng);
         judge_pair(rec, &p);
     }));
-    wls.push(Workload::cases("date_pairs", ctx.n(100_000, 3_000_000), |rec, _, rng| {
+    wls.push(Workload::cases("date_pairs", ctx.count(100_000, 3_000_000), |rec, _, rng| {
         let d1 = match rng.below(4) {
             0 => rng.range_i64(-800, 800),
             1 => rng.range_i64(cal::MIN_DAY, cal::MIN_DAY + 800),
@@ -305,7 +305,7 @@ pub fn run(ctx: &Ctx) -> PropResult {
         };
         judge_date_pair(rec, d1, d2);
     }));
-    wls.push(Workload::cases("time_pairs", ctx.n(100_000, 3_000_000), |rec, _, rng| {
+    wls.push(Workload::cases("time_pairs", ctx.count(100_000, 3_000_000), |rec, _, rng| {
         let dn = 86_400_000_000_000u64;
         let n1 = match rng.below(3) {
             0 => rng.below(86_400) * 1_000_000_000 + *rng.pick(&[0u64, 1, 999_999_999]),
